@@ -271,6 +271,16 @@ create_proc_dir(const char *loom, int pid)
 		rproc.move_to_final = 1;
 		mkdir_proc(rproc.procdir, tmpdir, loom, pid);
 		mkdir_proc(rproc.procdir_final, tracedir, loom, pid);
+
+		/* When both are the same directory there is nothing to move:
+		 * moving a stream onto itself would truncate and remove it */
+		struct stat st, st_final;
+		if (stat(rproc.procdir, &st) != 0)
+			die("stat %s failed:", rproc.procdir);
+		if (stat(rproc.procdir_final, &st_final) != 0)
+			die("stat %s failed:", rproc.procdir_final);
+		if (st.st_dev == st_final.st_dev && st.st_ino == st_final.st_ino)
+			rproc.move_to_final = 0;
 	} else {
 		rproc.move_to_final = 0;
 		mkdir_proc(rproc.procdir, tracedir, loom, pid);
